@@ -6,13 +6,13 @@ from . import oracles as O
 from . import small as SM
 
 CONFIG = {
-    'C01': dict(streams=[('td_class', 480), ('td_wf', 880), ('td_coarse', 320), ('fail_wf', 200), ('panic', 240)], keep='om'),
+    'C01': dict(streams=[('td_class', 480), ('td_wf', 880), ('td_coarse', 320), ('fail_wf', 200), ('panic', 240), ('multi', 40)], keep='om'),
     'C02': dict(streams=[('td_exact', 880), ('td_wf', 480), ('td_mid', 160)], keep='ov'),
-    'C03': dict(streams=[('bu_class', 320), ('bu_wf', 720), ('mixed_wf', 320), ('newreq', 160), ('cutoff_newreq', 160), ('fail_bu', 200), ('mid_session', 160)], keep='ovm'),
-    'C04': dict(streams=[('bu_class', 320), ('bu_wf', 960), ('mixed_wf', 160), ('newreq', 160), ('cutoff_newreq', 240), ('abort_bu', 240)], keep='ov'),
+    'C03': dict(streams=[('bu_class', 320), ('bu_wf', 720), ('mixed_wf', 320), ('newreq', 160), ('cutoff_newreq', 160), ('reported_products', 160), ('fail_bu', 200), ('mid_session', 160)], keep='ovm'),
+    'C04': dict(streams=[('bu_class', 320), ('bu_wf', 960), ('mixed_wf', 160), ('newreq', 160), ('cutoff_newreq', 240), ('reported_products', 120), ('abort_bu', 240)], keep='ov'),
     'C05': dict(streams=[('inj_hidden', 1200), ('siblings', 240), ('td_wf', 160), ('same_session', 80)], keep='om', extra='wabort'),
     'C06': dict(streams=[('inj_overlap', 1200), ('td_wf', 160), ('same_session', 80), ('newreq', 160)], keep='om', extra='wabort'),
-    'C07': dict(streams=[('inj_cycle', 880), ('reorder_cycle', 240), ('cycle_query', 240), ('newreq', 160)], keep='ov'),
+    'C07': dict(streams=[('inj_cycle', 880), ('reorder_cycle', 240), ('cycle_query', 240), ('newreq', 160), ('mid_session', 240)], keep='ov'),
     'C08': dict(streams=[('td_wf', 560), ('bu_wf', 320), ('multi', 80), ('panic', 240), ('abort_bu', 120), ('newreq', 160), ('same_abort', 80), ('fail_wf', 160)], keep='od'),
     'C09': dict(streams=[('td_coarse', 880), ('bu_wf', 320), ('multi', 80)], keep='dv', extra='stampsrc'),
     'C16': dict(streams=[('td_wf', 240), ('bu_wf', 240), ('mixed_wf', 120), ('newreq', 160)], keep='oevdm', two_process=True),
@@ -37,6 +37,9 @@ def make_case(rng, stream, big=False):
     if stream == 'newreq':
         p, steps, meta = P.gen_newreq_program(rng)
         return p, steps, norm_meta(meta, 'mixed')
+    if stream == 'reported_products':
+        p, steps, meta = P.gen_reported_products_program(rng)
+        return p, steps, norm_meta(meta, 'bu')
     if stream == 'cutoff_newreq':
         p, steps, meta = P.gen_cutoff_newreq_program(rng)
         return p, steps, norm_meta(meta, 'bu')
@@ -255,7 +258,7 @@ def run(prop, tier, seed, replay=None):
         if meta.get('only_sigs'):
             fs = [f for f in fs if f[1] in meta['only_sigs']]
         for (pr, sig, msg) in fs:
-            pr2, sig2 = remap(prog, pr, sig)
+            pr2, sig2 = remap(prog, pr, sig, toks)
             if mine(prop, pr2, sig2):
                 findings.append((sig2, msg, i))
         if impl2 is not None and impl2[i] != impl[i]:
@@ -407,7 +410,7 @@ ALSO = {'C01': {('C18', 'stale-output'), ('C18', 'stale-resource'),
         'C03': {('C18', 'stale-after-erring-bottom-up'), ('C09', 'dependency-not-checked')},
         # "every dependency it declared can cause it to be re-executed or scheduled": a task left stale by a bottom-up build that was
         # told about the change of a resource the task depends on
-        'C08': {('C03', 'stale-after-bottom-up'), ('C18', 'stale-output'), ('C18', 'stale-resource'),
+        'C08': {('C03', 'stale-after-bottom-up'), ('C18', 'stale-output'), ('C18', 'stale-resource'), ('C09', 'require-record-not-latest'),
                 # a dependency in the store that no execution recorded is not "exactly those of the latest execution"
                 ('C19', 'phantom-dependency')},
         'C19': {('C08', 'phantom-dependency')},
@@ -417,10 +420,14 @@ def mine(prop, pr, sig):
     return pr == prop or (pr, sig) in ALSO.get(prop, ())
 
 
-def remap(prog, pr, sig):
+def remap(prog, pr, sig, toks=None):
     """attribute findings of special streams"""
     if prog.kind == 'multi' and sig in ('stale-output', 'stale-resource'):
-        return 'C08', 'multi-checker-stale'
+        # the recorded finding O7 is: only the LAST checker is recorded.  It explains a stale result only if the last of the two
+        # checkers is the more lenient one (checker ids: 0 equals < 1 < 2 always)
+        cs = [int(toks[i + 2]) for i in range(len(toks) - 2) if toks[i] == 'Q' and toks[i + 1] == '1'][:2] if toks else []
+        if len(cs) < 2 or cs[1] > cs[0]:
+            return 'C08', 'multi-checker-stale'
     return pr, sig
 
 
@@ -472,7 +479,7 @@ def shrink_case(exe_impl, prog, steps, meta, prop, sig, msg):
               'repeat_steps': set(remapidx[x] for x in meta.get('repeat_steps', ()) if x in remapidx),
               'probe_steps': {remapidx[k]: remapidx[v] for k, v in meta.get('probe_steps', {}).items() if k in remapidx and v in remapidx and remapidx[k] > remapidx[v] and all(st[j][0] == 'F' for j in range(remapidx[v] + 1, remapidx[k]))}}
         for (pr, sg, m) in O.run_oracles(prog, m2, sessions):
-            pr2, sg2 = remap(prog, pr, sg)
+            pr2, sg2 = remap(prog, pr, sg, toks)
             if mine(prop, pr2, sg2) and sg2 == sig:
                 return m
         return None
